@@ -1602,6 +1602,9 @@ func (a *Authenticator) resumeSession(ctx context.Context, entry *SessionEntry, 
 		if user, ok := entry.Policy().EvaluateAttrString("User"); ok {
 			negotiation.User = user
 		}
+		// Restore the authentication outcome of the original handshake, as the
+		// server side does (see storeClientSession).
+		negotiation.Authentication = sessionAuthenticated(entry)
 		// Restore the peer (server) version so version-dependent logic works on
 		// a resumed session (see storeClientSession).
 		if rv, ok := entry.Policy().EvaluateAttrString("RemoteVersion"); ok {
